@@ -179,7 +179,8 @@ EXTRA = {
            "(attempts are not multiplied by one another).",
     "C13": " decompression_bomb: a compressed split reply with legal fields whose bzip2 stream expands to 128 MiB; set_txt_index.",
     "C14": " The documented Valve-to-game conversion is re-stated in the harness (not taken from the library).",
-    "C18": " The HTTP client (Eco) on a real socket with every accepted timeout combination.",
+    "C18": " The HTTP client (Eco) on a real socket with every accepted timeout combination; the auto-detecting Minecraft queries; every "
+           "construction and use recorded and trace-validated by TLC against Trace_Settings.tla.",
     "C19": " Timeout flag values that denote no representable duration (nan, inf, 1e20, 2^64) for each of the three flags; keys that are XML "
            "names with 2-, 3- and 4-byte characters at every early offset and with the reserved prefix; a named host with a request option; "
            "every run of the binary trace-validated by TLC against Trace_Cli.tla (exit / print rule).",
